@@ -18,21 +18,24 @@
      synchronous calls have their own FWait frame, so this covers them;
    - C05_trace_is_blocks (T3+T4): the chronological trace is a concatenation of tame events (no
      EvBefore/EvAfter/EvFlush/EvItemDone), unbracketed flushes forced by item.value()
-     (EvFlush k i items; completions of items) and scheduler flushes
-     (EvBefore k i; EvFlush k i items; completions of items; EvAfter k i) with items <> [];
+     (EvFlush k i items; dones) and scheduler flushes
+     (EvBefore k i; EvFlush k i items; dones; EvAfter k i) with items <> [], where
+     served items dones: dones are completions of members of items only and every member has one;
      corollaries C05_before_flush_after (every EvBefore is immediately followed by the EvFlush of
-     the same batch, non-empty, then only completions of its items, then its EvAfter - also when the
-     flush body raises, see C05_after_fires_when_flush_raises), C05_after_closes_block,
+     the same batch, non-empty, then exactly the completions of its items, then its EvAfter - also
+     when the flush body raises, see C05_after_fires_when_flush_raises), C05_after_closes_block,
+     C05_flush_serves_its_items, C05_item_completed_exactly_once_by_its_flush (an item of a flushed
+     batch has exactly one EvItemDone in the whole trace, among the completions of that flush),
      C05_item_done_by_its_flush (every EvItemDone h lies in a flush whose item list contains h),
-     C05_brackets_at_most_once (EvBefore k i and EvAfter k i occur equally often and at most once).
+     C05_brackets_at_most_once (EvBefore k i and EvAfter k i occur equally often and at most once);
+   - step-level invariants C05_blocks_invariant_step, C05_batch_items_invariant_step.
    No generic statement had to be refuted.
 
-   NOT proved here: that every item of a flushed batch has its EvItemDone in that flush (the
-   "at least once" half at trace level; only the function-level C05_flush_answers_every_item), that
-   the outcome in EvItemDone is the one the flush body set (function level only, by the definition of
+   NOT proved here: that the outcome carried by EvItemDone is the one the flush body set / the one
+   stored in the heap afterwards (function level only: MachineC05T.fx, by the definition of
    flush_body), the greatest-priority choice as a trace property (the trace does not show the set of
-   pending batches; function level only), and a purely trace-level form of T2 for run_case (it is
-   stated on configurations of [run]). *)
+   pending batches; function level only, C05_select_greatest_priority), and a purely trace-level
+   form of T2 for run_case (T2 is stated on the configurations of [run]). *)
 From Asynq Require Import Machine proofs.MachineC05 proofs.MachineTrace proofs.MachineC05T.
 
 Theorem C05_select_greatest_priority : forall P s k s',
@@ -139,16 +142,32 @@ Print Assumptions C05_trace_is_blocks.
 Theorem C05_before_flush_after : forall P fuel ps l1 l2 kind idx,
   snd (run_case P fuel ps) = l1 ++ EvBefore kind idx :: l2 ->
   exists items dones l3, l2 = EvFlush kind idx items :: dones ++ EvAfter kind idx :: l3 /\
-                         items <> [] /\ Forall (done_in items) dones.
+                         items <> [] /\ served items dones.
 Proof. exact run_case_before_flush_after. Qed.
 Print Assumptions C05_before_flush_after.
 
 Theorem C05_after_closes_block : forall P fuel ps l1 l2 kind idx,
   snd (run_case P fuel ps) = l1 ++ EvAfter kind idx :: l2 ->
   exists items dones l0, l1 = l0 ++ EvBefore kind idx :: EvFlush kind idx items :: dones /\
-                         items <> [] /\ Forall (done_in items) dones.
+                         items <> [] /\ served items dones.
 Proof. exact run_case_after_closes_block. Qed.
 Print Assumptions C05_after_closes_block.
+
+(* every flush body, bracketed or not, is followed by the completions of exactly its items
+   (served items dones = only completions of members of items, and every member has one) *)
+Theorem C05_flush_serves_its_items : forall P fuel ps l1 l2 kind idx items,
+  snd (run_case P fuel ps) = l1 ++ EvFlush kind idx items :: l2 ->
+  exists dones l3, l2 = dones ++ l3 /\ served items dones.
+Proof. exact run_case_flush_serves_its_items. Qed.
+Print Assumptions C05_flush_serves_its_items.
+
+(* every item of a flushed batch is completed exactly once in the whole trace, by that flush *)
+Theorem C05_item_completed_exactly_once_by_its_flush : forall P fuel ps l1 l2 kind idx items h,
+  snd (run_case P fuel ps) = l1 ++ EvFlush kind idx items :: l2 -> In h items ->
+  cnt h (snd (run_case P fuel ps)) = 1%nat /\
+  exists dones l3 o, l2 = dones ++ l3 /\ served items dones /\ In (EvItemDone h o) dones.
+Proof. exact run_case_item_exactly_once. Qed.
+Print Assumptions C05_item_completed_exactly_once_by_its_flush.
 
 Theorem C05_item_done_by_its_flush : forall P fuel ps l1 l2 h o,
   snd (run_case P fuel ps) = l1 ++ EvItemDone h o :: l2 ->
@@ -167,6 +186,12 @@ Print Assumptions C05_brackets_at_most_once.
 Theorem C05_blocks_invariant_step : forall P c, Inv (c_st c) -> Inv (c_st (step P c)).
 Proof. exact Inv_step. Qed.
 Print Assumptions C05_blocks_invariant_step.
+
+(* the heap invariant behind "every item is served": every member of a batch is a heap entry recording
+   that batch, without outcome while the batch is pending *)
+Theorem C05_batch_items_invariant_step : forall P c, dom (c_st c) -> BI (c_st c) -> BI (c_st (step P c)).
+Proof. exact BI_step. Qed.
+Print Assumptions C05_batch_items_invariant_step.
 
 (* non-vacuity: a scheduler flush, and one inside a synchronous call nested in a task *)
 Theorem C05_trace_example :
